@@ -11,7 +11,7 @@ from astdb import AnalysisBroken, walk
 from interp import Interp, Obj, Cell, Ptr, Region, Thrown, Ref
 from kernels import make_suv
 from poly import Poly
-from guarded import all_vars
+from guarded import all_vars, same
 import lifecycle
 import ownrules
 import proxies
@@ -39,9 +39,10 @@ def check_single_assignment(db, rep, tier):
             except Thrown as t:
                 rep.fail('A.single', '%s/%d/entry' % (op, d), unit.loc(t.node), 'proxy for equal dimensions', 'throw: %s' % t.what)
                 continue
-            combos = [(w, False) for w in proxies.WRAPPERS]
-            if tier == 'thorough':
-                combos += [(w, True) for w in proxies.WRAPPERS]
+            # every wrapper without and with the aligned-storage guarantee (the guarantee selects another instantiation
+            # of the kernel, which must store the same values)
+            combos = [(w, False) for w in proxies.WRAPPERS] + [(w, True) for w in proxies.WRAPPERS]
+            values = {}
             for w, al in combos:
                 n += 1
                 site = '%s/%s/%s/%d' % (op, w, 'aligned' if al else 'unaligned', d)
@@ -69,7 +70,17 @@ def check_single_assignment(db, rep, tier):
                     rep.fail('A.align', site, unit.loc(cf), 'alignment assumptions only under the asserted flag', 'assume_aligned reached with Aligned=false', cf['name'])
                 else:
                     rep.ok('A.single')
-    rep.floor('A.single', n, 9 * 5 * 3)
+                vals = [tgt.cell(k).value for k in range(d * d)]
+                if al and (w, False) in values:
+                    ref = values[(w, False)]
+                    diff = [k for k in range(d * d) if not same(vals[k], ref[k]) and not (isinstance(ref[k], type(vals[k])) and repr(ref[k]) == repr(vals[k]))]
+                    if diff:
+                        rep.fail('A.single', site + '/agree', unit.loc(cf), 'the kernel selected by the aligned-storage guarantee stores the same values as the plain one',
+                                 'slot %d: %s instead of %s' % (diff[0], vals[diff[0]], ref[diff[0]]), cf['name'])
+                    else:
+                        rep.ok('A.single')
+                values[(w, al)] = vals
+    rep.floor('A.single', n, 9 * 5 * 3 * 2)
 
 
 def hooks_assume_aligned(hooks):
